@@ -1,8 +1,12 @@
 (* C12 at the level of the SOURCE (method: Props/C11Src.v): BIP85DeterministicEntropy.byte_count_from_word_count, the
    static method that maps the allowed word counts to entropy widths (12/15/18/21/24 -> 16/20/24/28/32) and refuses every
-   other count.  (The five application methods and entropy() work on node objects: outside the fragment; their path
-   component conversion is covered by Props/C17Src.v, mnemonic_from_entropy by Props/C04Src.v.) *)
-From BHW Require Import Lib.Base Lib.ListAux Model.Helper Model.Bip85M Py.Interp Py.Tactics.
+   other count; and two of the five applications, hex and bip39_mnemonic, with the instance method entropy(path) as an
+   external primitive: for every parameter and index the source hands entropy() exactly the model's path string
+   m/83696968'/128169'/n'/i' resp. m/83696968'/39'/0'/wc'/i' (str.format), refuses n outside 16..64 / a word count outside
+   the five, and returns the hex of the first n bytes resp. the BIP39 sentence (source of mnemonic_from_entropy) of the
+   first byte_count(wc) bytes.  (entropy(), wif, xprv and pwd work on node objects / ecdsa / base64: outside the fragment;
+   the path parser those strings go through is covered by Props/C17Src.v.) *)
+From BHW Require Import Lib.Base Lib.ListAux Model.Helper Model.Bip32M Model.Bip39M Model.Bip85M Spec.Curve Py.Interp Py.Tactics Proofs.PyBip85.
 From BHWGen Require Import Consts PyAst.
 Open Scope string_scope.
 Open Scope Z_scope.
@@ -30,10 +34,55 @@ Proof.
   destruct M as [<-|[<-|[<-|[<-|[<-|[]]]]]]; cbn; tauto.
 Qed.
 
-Theorem C12_source_translated :
-  existsb (String.eqb "bip85.BIP85DeterministicEntropy.byte_count_from_word_count") translated = true.
-Proof. reflexivity. Qed.
+Section C12Apps.
+Variable C : curve.
+Variable hmac512 : bytes -> bytes -> bytes.
+Hypothesis hmac_wf : forall k m, wf_bytes (hmac512 k m).
+Variable sha256 : bytes -> bytes.
+Hypothesis sha256_wf : forall x, wf_bytes (sha256 x).
+Hypothesis sha256_len : forall x, List.length (sha256 x) = 32%nat.
+Variable master : node.
+Variable ext : fenv_t.
+(* entropy(path) of THIS object: the model's entropy of its master node (HMAC-SHA512 under the BIP85 key of the private key
+   derived along the parsed path); a failure there is some exception *)
+Hypothesis ext_entropy :
+  ext "bip85.BIP85DeterministicEntropy.entropy"
+  = Some (fun args => match args with
+                      | [_; VStr p] => match entropy C hmac512 master p with Ok e => Val (VBytes e) | Err => Exc ValueError end
+                      | _ => Exc TypeError
+                      end).
+Hypothesis ext_sha256 :
+  ext "helper.sha256" = Some (fun args => match args with [VBytes b] => Val (VBytes (sha256 b)) | _ => Exc TypeError end).
 
+Lemma entropy_wf : forall p e, entropy C hmac512 master p = Ok e -> wf_bytes e.
+Proof.
+  intros p e H. unfold entropy in H.
+  destruct (WalletUtils.path_parse p); cbn [bind] in H; [|discriminate].
+  destruct (derive_path C hmac512 master _); cbn [bind] in H; [|discriminate].
+  destruct (private_key C _); cbn [bind] in H; [|discriminate]. inversion H. apply hmac_wf.
+Qed.
+
+Theorem C12_source_hex_is_model : forall fuel self n i,
+  agrees (sem_bip85__BIP85DeterministicEntropy__hex ext fuel [self; VInt n; VInt i]) (rmap VStr (hex85 C hmac512 master n i)).
+Proof. intros. exact (hex_sem (entropy C hmac512 master) entropy_wf ext ext_entropy fuel self n i). Qed.
+
+Theorem C12_source_mnemonic_is_model : forall fuel self wc i,
+  agrees (sem_bip85__BIP85DeterministicEntropy__bip39_mnemonic ext fuel [self; VInt wc; VInt i])
+         (rmap VStr (bip39_mnemonic C hmac512 sha256 master wc i)).
+Proof.
+  intros. exact (bip39_mnemonic_sem (entropy C hmac512 master) entropy_wf ext ext_entropy sha256 sha256_wf sha256_len ext_sha256 fuel self wc i).
+Qed.
+End C12Apps.
+
+Theorem C12_source_translated :
+  forallb (fun q => existsb (String.eqb q) translated)
+    ["bip85.BIP85DeterministicEntropy.byte_count_from_word_count"; "bip85.BIP85DeterministicEntropy.hex";
+     "bip85.BIP85DeterministicEntropy.bip39_mnemonic"; "bip39.mnemonic_from_entropy"] = true /\
+  extern_ok_bip85__BIP85DeterministicEntropy__entropy = true.
+Proof. split; reflexivity. Qed.
+
+Print Assumptions C12_source_hex_is_model.
+Print Assumptions C12_source_mnemonic_is_model.
 Print Assumptions C12_source_byte_count_is_model.
 Print Assumptions C12_source_byte_count_table.
 Print Assumptions C12_source_translated.
